@@ -1104,7 +1104,8 @@ class DocutilsRenderer(RendererProtocol):
             self.render_children(token)
         # docutils replaces an unresolved reference by ``problematic(rawsource)``:
         # without a rawsource the text of the link would be lost
-        ref_node.rawsource = ref_node.astext()
+        # (without the text of warnings raised inside the link text)
+        ref_node.rawsource = clean_astext(ref_node)
 
     def render_link_inventory(self, token: SyntaxTreeNode) -> None:
         r"""Create a link to an inventory object.
